@@ -49,6 +49,11 @@ pub struct Point {
     pub umask: u32,
     /// use the ReadOnlyCache API instead of a Cache without writer (get/touch only)
     pub readonly_api: bool,
+    /// the write cache's temporary directory cannot be created: a regular file named `.kismet_temp`
+    /// (left by something else) sits where it should be. An operation that needs scratch space may
+    /// then fail; one that reports success is held to the full expectation (checker calls included)
+    #[serde(default)]
+    pub temp_blocked: bool,
 }
 
 pub const KEY: &str = "key";
@@ -202,9 +207,9 @@ pub fn enumerate(which: &str, thorough: bool) -> Vec<Point> {
                             for &nosy in &nosies {
                                 for &size in &sizes {
                                     for &umask in &umasks {
-                                        out.push(Point { writer: wh, readers: readers.clone(), op, pop, checker, nosy, size, umask, readonly_api: false });
+                                        out.push(Point { writer: wh, readers: readers.clone(), op, pop, checker, nosy, size, umask, readonly_api: false, temp_blocked: false });
                                         if w.is_none() && matches!(op, OpKind::Get | OpKind::Touch) && matches!(which, "C15" | "C14" | "C13") {
-                                            out.push(Point { writer: None, readers: readers.clone(), op, pop, checker, nosy, size, umask, readonly_api: true });
+                                            out.push(Point { writer: None, readers: readers.clone(), op, pop, checker, nosy, size, umask, readonly_api: true, temp_blocked: false });
                                         }
                                     }
                                 }
@@ -499,6 +504,18 @@ pub fn run_point(root: &Path, p: &Point) -> PointResult {
             let d = dirspec(&level_name(i), *k).candidate_dirs(root, &bystander)[0].clone();
             plant_file(&d.join("bystander"), &Val::new("bystander", 9, 9, 17).encode(), 0o444);
             set_times_ns(&d.join("bystander"), old - 120_000_000_000, old - 5_000_000_000).unwrap();
+        }
+    }
+    if p.temp_blocked {
+        if let Some((k, _)) = p.writer {
+            let mut dirs = level_paths(root, "W", k);
+            dirs.push(root.join("W"));
+            for d in dirs {
+                crate::shim::bypass(|| {
+                    let _ = std::fs::create_dir_all(&d);
+                    let _ = std::fs::write(d.join(".kismet_temp"), b"not a directory");
+                });
+            }
         }
     }
     let before = snapshot(root);
@@ -819,6 +836,10 @@ pub fn run_point(root: &Path, p: &Point) -> PointResult {
             }
         }
     });
+    if p.temp_blocked && matches!(ret, Ret::Err(_)) {
+        // the operation needed scratch space, found none and said so: no further claim
+        findings.clear();
+    }
     PointResult { findings, ret, expect, published, handle_after_consumer, ro_touched, peak_fds: peak }
 }
 
@@ -849,6 +870,21 @@ pub fn run_matrix(ctx: &Ctx, prop: &'static str, which: &str, nontrivial: impl F
         rep.label(&format!("levels:{}", p.readers.len() + p.writer.is_some() as usize));
         for f in r.findings.iter().filter(|f| f.prop == prop) {
             rep.violation(&f.sig, f.detail.clone(), point_json(p));
+        }
+        // C14: the same point once more with the write cache's temporary directory blocked (scratch
+        // space for the comparison against a freshly populated value cannot be created)
+        if which == "C14" && p.writer.is_some() && p.checker != Checker::None && matches!(p.op, OpKind::Ensure | OpKind::GouAccept | OpKind::GouPromote) {
+            let mut q = p.clone();
+            q.temp_blocked = true;
+            let r = run_point(&scratch.path, &q);
+            rep.evaluations += 1;
+            rep.label(if matches!(r.ret, Ret::Err(_)) { "temp dir blocked: operation reported an error" } else { "temp dir blocked: operation succeeded (held to the full expectation)" });
+            if !matches!(r.ret, Ret::Err(_)) && nontrivial(&q, &r) {
+                rep.nontrivial_enum += 1;
+            }
+            for f in r.findings.iter().filter(|f| f.prop == prop) {
+                rep.violation(&f.sig, f.detail.clone(), point_json(&q));
+            }
         }
         if rep.samples.len() < 3 && i % 7919 == 13 {
             rep.sample(json!({"point": p, "result": r.ret.short()}));
